@@ -10,6 +10,7 @@ Style profile (per shard, or chosen per step when shard["free"] is set):
   open  0 with start_action   1 start_action + context() + finish
         2 start_action + run(f) + finish      3 @log_call function
         4 typed ActionType    5 start_task (new tree)
+        6 start_action + context() with finish()/finish(exc) called inside that context
   msg   0 log_message  1 action.log  2 typed MessageType.log
         3 deprecated Message.log     4 write_traceback     5 Message.new().bind().write(action=)
   exc   index into EXC_MENU
@@ -105,7 +106,7 @@ def _mk_exc(i, n):
 
 
 N_EXC = 9
-N_OPEN = 6
+N_OPEN = 7
 N_MSG = 6
 N_FIN = 3
 
@@ -135,6 +136,11 @@ def _x_mid(e):
 
 def _x_base(e):
     return {"code": e.code, "kind": "app"}
+
+
+def _x_base_colliding(e):
+    # an extractor that happens to use the names of the built-in failure fields
+    return {"code": e.code, "kind": "app", "reason": "extractor's reason", "exception": "extractor.Name", "action_status": "extractor-status"}
 
 
 def _x_raise(e):
@@ -235,8 +241,11 @@ class Interp(object):
         self.n_handoffs = 0
         self.ops = []  # rendered op sequence
         self.xcfg = extractor_config(int(self.shard.get("ext", 2)))
+        self.xfuncs = dict(_X_FUNCS)
+        if self.shard.get("xcollide"):
+            self.xfuncs[AppBase] = _x_base_colliding
         for cls, how in self.xcfg.items():
-            register_exception_extractor(cls, _X_FUNCS[cls] if how == "dict" else _x_raise)
+            register_exception_extractor(cls, self.xfuncs[cls] if how == "dict" else _x_raise)
 
     def exc_extra(self, e):
         """(fields of the extractor registered for the nearest class in the MRO,
@@ -245,7 +254,8 @@ class Interp(object):
             if klass in self.xcfg:
                 if self.xcfg[klass] == "raise":
                     return {}, True
-                return _X_FUNCS[klass](e), False
+                # the built-in failure fields always win over same-named extractor fields
+                return {k: v for k, v in _X_FUNCS[klass](e).items() if k not in ("reason", "exception", "action_status")}, False
             if klass is OSError:
                 return {"errno": e.errno}, False
         return {}, False
@@ -349,7 +359,15 @@ class Interp(object):
         self.ops.append(")")
 
     # -- messages --------------------------------------------------------------
+    def _reseed(self):
+        """Application code may seed the global PRNG with the same value again and again
+        (reproducible experiments); task ids must not depend on it."""
+        import random
+
+        random.seed(20240229)
+
     def do_message(self):
+        self._reseed()
         st = self.style("msg", N_MSG)
         v = self.value()
         self.ops.append("M%d" % st)
@@ -416,7 +434,7 @@ class Interp(object):
         self._late_done = True
         for cls, how in extractor_config(int(late)).items():
             self.xcfg[cls] = how
-            register_exception_extractor(cls, _X_FUNCS[cls] if how == "dict" else _x_raise)
+            register_exception_extractor(cls, self.xfuncs[cls] if how == "dict" else _x_raise)
 
     def _close_failed(self, ref, e, contextless=False):
         """Called outside the failed action, i.e. in the context finish() ran in."""
@@ -433,9 +451,12 @@ class Interp(object):
         self.n_failed += 1
         if boom:
             # the extractor's own failure is logged as a traceback in the context
-            # where finish() was called (the enclosing action, or none)
+            # where finish() was called (the enclosing action, or none; for open style 6
+            # the failing action itself, just before its end message)
             self.n_msgs += 1
-            if contextless:
+            if ref.style == 6:
+                ref.children.append(self._extractor_traceback_ref())
+            elif contextless:
                 self.forest.append(self._extractor_traceback_ref())
             else:
                 self._attach(self._extractor_traceback_ref())
@@ -466,6 +487,7 @@ class Interp(object):
 
     def do_open(self, depth):
         ctx = self.ctx
+        self._reseed()
         st = self.style("open", N_OPEN)
         fin = self.style("fin", N_FIN)
         v = self.value()
@@ -525,6 +547,25 @@ class Interp(object):
                     action.add_success_fields(r=r)
                     self._close_ok(ref, action, {"r": r})
                     action.finish()
+            elif st == 6:
+                action = start_action(action_type=ref.type, x=v)
+                self.on_logged(ref)
+                with action.context():
+                    try:
+                        self._body(ref, action, depth)
+                    except BaseException as e:
+                        # finishing while the action itself is still the current one
+                        self.finishing_inside = ref
+                        try:
+                            action.finish(e)
+                        finally:
+                            self.finishing_inside = None
+                        raise
+                    else:
+                        r = self.value()
+                        action.add_success_fields(r=r)
+                        self._close_ok(ref, action, {"r": r})
+                        action.finish()
             elif st == 2:
                 action = start_action(action_type=ref.type, x=v)
                 self.on_logged(ref)
@@ -607,14 +648,17 @@ class Interp(object):
         ref = RefAction("eliot:remote_task", {"x": v}, 9, remote=True)
         self._attach(ref)
         before = current_action()
-        # the remote side: no inherited context, its own destination
+        inline = bool(self.shard.get("inline_remote"))
+        # the remote side: no inherited context (unless shard["inline_remote"]: the continuation
+        # runs in a context that already has a current action), its own destination
         saved = (self.stack, self.astack, self.side)
         self.side = saved[2] + 1 if not self.shard.get("same_side") else saved[2]
         ref.side = self.side
         import contextvars
 
         def remote():
-            self.stack, self.astack = [], []
+            if not inline:
+                self.stack, self.astack = [], []
             self._expect_current("on the remote side before continue_task")
             with Action.continue_task(task_id=task_id, x=v) as action:
                 self.on_logged(ref)
@@ -623,7 +667,10 @@ class Interp(object):
 
         try:
             try:
-                contextvars.Context().run(remote)
+                if inline:
+                    remote()
+                else:
+                    contextvars.Context().run(remote)
             finally:
                 self.stack, self.astack, self.side = saved
         except BaseException as e:
